@@ -626,6 +626,13 @@ fn random_graph(r: &mut Rng, thorough: bool) -> Case {
         }
     }
     let excludes: Vec<String> = if r.chance(3, 4) { vec!["@lune/**".to_string()] } else { vec![] };
+    // an alias of a `.luaurc` next to the configuration; its target differs from project to project (the same worker
+    // bundles thousands of projects: whatever is cached between runs must not leak from one to the next)
+    let rc_alias: Option<(String, String)> = if r.chance(1, 3) { Some(("rc".to_string(), r.pick(&["./pkg", "./src/lib", "./src", "./pkg/inner"]).to_string())) } else { None };
+    let rc_path = norm(&join(&project, ".luaurc"));
+    if let Some((n, loc)) = &rc_alias {
+        known.insert(rc_path.clone(), format!("{{\"aliases\": {{\"{}\": \"{}\"}}}}", n, loc));
+    }
     let fs = MapFs(&known);
     let mut forms_used: Vec<String> = vec![];
     let mut spell_used: Vec<String> = vec![];
@@ -669,7 +676,20 @@ fn random_graph(r: &mut Rng, thorough: bool) -> Case {
         }
         for (tpath, tret) in &targets {
             k += 1;
-            let cands = spellings(&mode, &project, &m.path, tpath, r);
+            let mut cands = spellings(&mode, &project, &m.path, tpath, r);
+            if let Some((n, loc)) = &rc_alias {
+                let pre = format!("{}/", norm(&join(&project, loc)));
+                if tpath.starts_with(&pre) && mode.rc_enabled() {
+                    let rest = &tpath[pre.len()..];
+                    let noext = match extension(rest) {
+                        Some(e) if e == "lua" || e == "luau" => &rest[..rest.len() - e.len() - 1],
+                        _ => rest,
+                    };
+                    cands.insert(0, (format!("@{}/{}", n, noext), "luaurc-alias"));
+                    cands.insert(0, (format!("@{}/{}", n, rest), "luaurc-alias"));
+                    r.shuffle(&mut cands);
+                }
+            }
             let mut valid: Vec<(String, &'static str)> = vec![];
             for (s, kind) in cands {
                 let res = resolve(&mode, &project, &fs, &m.path, &s);
@@ -716,6 +736,9 @@ fn random_graph(r: &mut Rng, thorough: bool) -> Case {
     for d in decoys {
         files.insert(d, json!({"text": "RUNS = RUNS or {}\nRUNS.decoy = (RUNS.decoy or 0) + 1\nreturn \"DECOY\""}));
     }
+    if rc_alias.is_some() {
+        files.insert(rc_path.clone(), json!({"text": known[&rc_path].clone(), "lua": "nil"}));
+    }
     let generator = dl::generator_json(*r.pick(&dl::GENERATORS), if r.chance(1, 3) { Some(*r.pick(&[0usize, 20, 80])) } else { None });
     let rules: Vec<String> = match r.below(4) {
         0 => dl::DEFAULT_RULES.iter().map(|s| format!("'{}'", s)).collect(),
@@ -724,7 +747,7 @@ fn random_graph(r: &mut Rng, thorough: bool) -> Case {
     };
     json!({
         "kind": "graph", "project": project, "entry": entry, "mode": mode.to_json(), "files": files, "excludes": excludes,
-        "generator": generator, "rules": rules,
+        "generator": generator, "rules": rules, "fs": r.chance(1, 10),
         "modules_identifier": if r.chance(1, 6) { json!("_BUNDLE") } else { Value::Null },
         "forms": forms_used, "spellings": spell_used,
     })
@@ -1016,7 +1039,26 @@ impl Monitor for C05 {
         let config = format!("{{ generator: {}, bundle: {{ require_mode: {}{} }}, rules: [{}] }}", p.generator, p.mode.json5(), extra, p.rules.join(", "));
         files.insert(cfg_path.clone(), config.clone());
         let out_path = join(&p.project, "out/bundle.lua");
-        let r = run_darklua(&files, &cfg_path, &p.entry, &out_path, None);
+        let use_fs = case["fs"].as_bool().unwrap_or(false) && !p.project.starts_with('/');
+        let r = if use_fs {
+            // the same project on a real directory (directories exist there: `./lib` can be a folder *and* a module)
+            let base = match std::env::var_os("DLVERIF_SCRATCH") {
+                Some(b) if !b.is_empty() => std::path::PathBuf::from(b),
+                _ => std::env::temp_dir(),
+            };
+            let nanos = std::time::SystemTime::now().duration_since(std::time::UNIX_EPOCH).map(|d| d.subsec_nanos()).unwrap_or(0);
+            let root = base.join(format!("dlverif-c05-{}-{}", std::process::id(), nanos));
+            let _ = std::fs::remove_dir_all(&root);
+            let rs = root.to_string_lossy().to_string();
+            let pre = |x: &str| format!("{}/{}", rs, x);
+            let files2: BTreeMap<String, String> = files.iter().map(|(k, v)| (pre(k), v.clone())).collect();
+            let out = run_darklua(&files2, &pre(&cfg_path), &pre(&p.entry), &pre(&out_path), Some(&rs));
+            let _ = std::fs::remove_dir_all(&root);
+            cov.hit("backend:file_system");
+            out
+        } else {
+            run_darklua(&files, &cfg_path, &p.entry, &out_path, None)
+        };
         let kind = case["kind"].as_str().unwrap_or("graph").to_string();
         let header = format!("mode: {}  generator: {}  rules: [{}]  excludes: {:?}", p.mode.json5(), p.generator, p.rules.join(", "), p.excludes);
 
